@@ -166,6 +166,16 @@ class TermWalk:
                 rest_head = v.head[k:]
                 self.bind(target.elts[k].value, Lst(rest_head, True) if rest_head else Rest(), env)  # type: ignore[attr-defined]
                 return
+        if isinstance(target, ast.Subscript) and isinstance(target.value, ast.Name) and isinstance(target.slice, ast.Constant) \
+                and isinstance(target.slice.value, int) and not isinstance(target.slice.value, bool):
+            # `terms[0] = (prefix, symbol, exponent)`: that element of the term list is replaced (a new list value: paths share nothing)
+            cur = env.get(target.value.id)
+            k = target.slice.value
+            if isinstance(cur, Lst) and 0 <= k < len(cur.head):
+                head = list(cur.head)
+                head[k] = v
+                env[target.value.id] = Lst(head, cur.tail)
+                return
         raise NoVerdict(f"assignment to {ast.unparse(target)[:40]}")
 
     def may_raise(self, st: ast.stmt) -> bool:
@@ -211,7 +221,7 @@ class TermWalk:
             a = Path(dict(env), p.conds + [ast.unparse(st.test)[:50]])
             b = Path(dict(env), p.conds + ["not " + ast.unparse(st.test)[:50]])
             return self.block(st.body, [a]) + self.block(st.orelse, [b])
-        if isinstance(st, ast.Try) and not st.finalbody and not st.orelse and len(st.handlers) == 1:
+        if isinstance(st, ast.Try) and not st.finalbody and len(st.handlers) == 1:
             # the body completes, or it is abandoned at a statement that may raise (state as before that statement)
             out: List[Path] = []
             cur = [Path(dict(env), list(p.conds))]
@@ -221,6 +231,9 @@ class TermWalk:
                         h = Path(dict(c.env), c.conds + [f"{ast.unparse(s)[:40]} raises"])
                         out += self.block(st.handlers[0].body, [h])
                 cur = self.block([s], cur)
+            # `else:` runs after a body that completed; what it raises is not caught here
+            if st.orelse:
+                cur = self.block(st.orelse, cur)
             return out + cur
         raise NoVerdict(f"statement {type(st).__name__}")
 
@@ -260,3 +273,33 @@ def judge(w: TermWalk, v: Val) -> Tuple[bool, str]:
     if got != want:
         return False, f"ln(magnitude) + x1*ln(prefix of the first term) = {got!r}, but the unit is worth {want!r}"
     return True, ""
+
+
+def term_splitter(prog):  # type: ignore[no-untyped-def]
+    """The function of measured.formatting that turns a unit into (leading magnitude, terms): by its name, or - a private helper
+    may be renamed - the one function of the module that takes the unit and returns a pair on every return, and whose result a
+    renderer unpacks into two names."""
+    q0 = "formatting._unit_to_magnitude_and_terms"
+    if q0 in prog.functions:
+        return prog.functions[q0]
+    called = set()
+    for q, fi in prog.functions.items():
+        if fi.module != "formatting":
+            continue
+        for n in ast.walk(fi.node):
+            if isinstance(n, ast.Assign) and isinstance(n.value, ast.Call) and isinstance(n.value.func, ast.Name) and len(n.targets) == 1 \
+                    and isinstance(n.targets[0], ast.Tuple) and len(n.targets[0].elts) == 2 and len(n.value.args) == 1:
+                called.add(n.value.func.id)
+    cands = []
+    for name in sorted(called):
+        fi = prog.functions.get(f"formatting.{name}")
+        if fi is None or len(fi.params()) != 1:
+            continue
+        rets = [r for r in ast.walk(fi.node) if isinstance(r, ast.Return) and r.value is not None]
+        if rets and all(isinstance(r.value, ast.Tuple) and len(r.value.elts) == 2 for r in rets) \
+                and any(isinstance(x, ast.Attribute) and x.attr == "factors" for x in ast.walk(fi.node)):
+            cands.append(fi)
+    if len(cands) != 1:
+        raise AnalysisError("anchor function formatting._unit_to_magnitude_and_terms not found (and no single function of measured.formatting "
+                            "returns (magnitude, terms) of a unit)")
+    return cands[0]
